@@ -101,6 +101,16 @@ func (rt *runtime) newBoundFunctionObject(target *object, this Value, argumentLi
 	return o
 }
 
+// boundArguments returns the bound arguments followed by argumentList in a new
+// slice: appending to fn.argumentList itself would write into its spare
+// capacity, which every call of the bound function (also a re-entrant one, or
+// one on a copy of the runtime) shares.
+func (fn bindFunctionObject) boundArguments(argumentList []Value) []Value {
+	out := make([]Value, 0, len(fn.argumentList)+len(argumentList))
+	out = append(out, fn.argumentList...)
+	return append(out, argumentList...)
+}
+
 // [[Construct]].
 func (fn bindFunctionObject) construct(argumentList []Value) Value {
 	obj := fn.target
@@ -111,7 +121,7 @@ func (fn bindFunctionObject) construct(argumentList []Value) Value {
 		}
 		return value.construct(obj, fn.argumentList)
 	case nodeFunctionObject:
-		argumentList = append(fn.argumentList, argumentList...)
+		argumentList = fn.boundArguments(argumentList)
 		return obj.construct(argumentList)
 	default:
 		panic(fn.target.runtime.panicTypeError("construct unknown type %T", obj.value))
@@ -207,7 +217,7 @@ func (o *object) call(this Value, argumentList []Value, eval bool, frm frame) Va
 
 	case bindFunctionObject:
 		// TODO Passthrough site, do not enter a scope
-		argumentList = append(fn.argumentList, argumentList...)
+		argumentList = fn.boundArguments(argumentList)
 		return fn.target.call(fn.this, argumentList, false, frm)
 
 	case nodeFunctionObject:
